@@ -761,17 +761,42 @@ def process_file(sp, fspec, g):
                 chosen = [c for c in chosen if c[1]]
             # header
             sp.r1(it.head_lo, it.body_lo)
+            r15 = trait is not None and any(rs.norm_text(t) in head for t in fspec.inherent)
+            if r15:
+                # R15: drop `Trait for` from the header: the methods are verified as inherent methods with the same bodies
+                hs = [k for k in range(it.head_lo, it.body_lo) if toks[k].kind not in ("ws", "comment", "doc")]
+                depth, k0, k1 = 0, None, None
+                n = 0
+                while toks[hs[n]].text != "impl":
+                    n += 1
+                n += 1
+                if toks[hs[n]].text == "<":
+                    while True:
+                        tt = toks[hs[n]].text
+                        depth += tt == "<"
+                        depth -= tt == ">"
+                        n += 1
+                        if depth == 0:
+                            break
+                k0 = hs[n]
+                while not (toks[hs[n]].kind == "ident" and toks[hs[n]].text == "for" and depth == 0):
+                    depth += toks[hs[n]].text == "<"
+                    depth -= toks[hs[n]].text == ">"
+                    n += 1
+                k1 = hs[n + 1]
+                sp.sub(k0, k1, "", "R15")
+                chosen = [c for c in chosen if c[1]]
             sp.emit(it.lo, it.body_lo + 1)
             for sub, key, fs in chosen:
                 if key:
-                    emit_fn(sub, key, fs, in_trait=trait is not None)
+                    emit_fn(sub, key, fs, in_trait=trait is not None and not r15)
                 else:
                     sp.r1(sub.head_lo, sub.hi)
                     sp.r11(sub.head_lo, sub.hi)
                     g.raw("\n    ")
                     sp.emit(sub.lo, sub.hi)
             g.raw("\n}\n")
-            if trait == "Iterator":
+            if trait == "Iterator" and not r15:
                 # R12: opt the user iterator out of vstd's prophetic iterator protocol
                 def r1text(x):
                     for (a, b, c), v in R1.items():
@@ -825,6 +850,7 @@ def main():
           "use core::hash::{BuildHasher, Hash};\nuse core::borrow::Borrow;\nuse core::marker::PhantomData;\n")
     g.raw("\n//@section model\n")
     g.raw(open(os.path.join(a.verif, "model", "hashbrown_0_14_5.rs")).read())
+    g.raw(open(os.path.join(a.verif, "model", "lawfulness.rs")).read())
     g.raw("\n//@section prelude\n")
     g.raw(open(os.path.join(a.verif, "contracts", "prelude.rs")).read())
     g.raw("\n//@section code\nuse raw::*;\nuse map::*;\nuse set::*;\nverus! {\n")
